@@ -11,7 +11,7 @@ package tcp
 //@
 //@ struct listener
 //@   lock lock level 50
-//@   guarded_by lock: maxRecvSize
+//@   guarded_by lock: maxRecvSize lc
 //@   immutable: addr proto handshaker closeq
 //@   racy: l bound because written by Listen with no lock and read by Accept/Address/Close; no lock discipline exists for them in the code (outside the guard sweep)
 //@
